@@ -85,7 +85,9 @@ def inprocOne : Judge := liftJudge fun input obs => do
   let mut pubSeen : List (String × Nat) := []
   let mut online : List String := real
   let mut sess : List (String × Sess) := real.map (fun c => (c, Sess.init))
-  let mut unackObs : List (String × List (Nat × String)) := real.map (fun c => (c, []))
+  -- per client: the Spec's observation-based bookkeeping (`Spec/Delivery.lean` `obsStep` / `specTick`) — the
+  -- same functions the theorems of Props/C15 speak about (`unacked`, `resend_oldest_unacked`, …)
+  let mut unackObs : List (String × List (Id × Msg)) := real.map (fun c => (c, []))
   -- extension mqtt: ids consumed per client (model count) and, per observed pending id, the count at its publish;
   -- `strict` (opt-in, set only by corpus lines) makes a tick demand EVERY unacknowledged message
   let mut idCnt : List (String × Nat) := []
@@ -176,7 +178,7 @@ def inprocOne : Judge := liftJudge fun input obs => do
               acc := acc.fail (if wrapped then "ids:wrap-overwrote-pending" else "ids:pending-collision")
                 s!"event {i-1} client {c}: id {p.id} still pending ({cntBefore - since} ids consumed since it was sent)"
               if wrapped then acc := acc.tag "ids:wrapped"
-            unackObs := alSet c (u ++ [(p.id, p.payload)]) unackObs
+            unackObs := alSet c (obsStep u (.publish true full ⟨topic, payload, q⟩) [p]) unackObs
             let ps := lookupD c pendSince []
             if (alGet p.id ps).isNone then pendSince := alSet c (ps ++ [(p.id, cntBefore)]) pendSince
     else if k == "a" then
@@ -187,7 +189,7 @@ def inprocOne : Judge := liftJudge fun input obs => do
         let s := lookupD c sess Sess.init
         if (alGet id s.pending).isNone then acc := acc.tag "puback-bogus-id"
         sess := alSet c (puback id s) sess
-        unackObs := alSet c ((lookupD c unackObs []).filter (fun e => e.1 != id)) unackObs
+        unackObs := alSet c (obsStep (lookupD c unackObs []) (.puback id) []) unackObs
         pendSince := alSet c ((lookupD c pendSince []).filter (fun e => e.1 != id)) pendSince
     else if k == "mn" then
       -- N sends of one QoS0 message (queues drained after each): observation = count, first and last packet
@@ -239,21 +241,26 @@ def inprocOne : Judge := liftJudge fun input obs => do
         let u := lookupD c unackObs []
         acc := acc.tag (if u.isEmpty then "tick:nothing-pending" else if u.length > 1 then "tick:several-pending" else "tick:one-pending")
         if !on then acc := acc.tag "tick:offline"
-        match u, on with
-        | (id, pl) :: _, true =>
-          if got.isEmpty then acc := acc.fail "resend:missing" s!"event {i-1} client {c}: oldest unacked {id} not re-sent"
-          else if got.length > 1 then acc := acc.fail "resend:more-than-oldest" s!"event {i-1} client {c}: [{showPkts got}]"
-          else if got.any (fun p => p.id != id || p.payload != pl || p.qos != 1) then
-            let acked := got.any (fun p => !(u.any (fun e => e.1 == p.id)))
-            acc := acc.fail (if acked then "resend:after-ack" else "resend:not-oldest")
-              s!"event {i-1} client {c}: [{showPkts got}], oldest unacked {id}:{pl}"
-          else nontriv := true
-          -- opt-in literal reading of the statement: every unacknowledged message is retransmitted
-          if strict && u.length ≥ 2 && !(u.all fun e => got.any fun p => p.id == e.1 && p.payload == e.2) then
-            acc := acc.fail "resend:younger-not-resent-behind-unacked-head"
-              s!"event {i-1} client {c}: {u.length} unacknowledged, re-sent only [{showPkts got}]"
-        | _, _ =>
-          if !got.isEmpty then acc := acc.fail "resend:after-ack" s!"event {i-1} client {c}: [{showPkts got}] but nothing pending / offline"
+        -- the executable spec: a tick writes exactly `specTick` of the observed bookkeeping
+        let wantSpec := (specTick on u).map fun p => { p with topic := "" }
+        if got == wantSpec then
+          if !got.isEmpty then
+            nontriv := true
+        else
+          match u, on with
+          | (id, mm) :: _, true =>
+            if got.isEmpty then acc := acc.fail "resend:missing" s!"event {i-1} client {c}: oldest unacked {id} not re-sent"
+            else if got.length > 1 then acc := acc.fail "resend:more-than-oldest" s!"event {i-1} client {c}: [{showPkts got}]"
+            else
+              let acked := got.any (fun p => !(u.any (fun e => e.1 == p.id)))
+              acc := acc.fail (if acked then "resend:after-ack" else "resend:not-oldest")
+                s!"event {i-1} client {c}: [{showPkts got}], oldest unacked {id}:{mm.payload}"
+          | _, _ =>
+            acc := acc.fail "resend:after-ack" s!"event {i-1} client {c}: [{showPkts got}] but nothing pending / offline"
+        -- opt-in literal reading of the statement: every unacknowledged message is retransmitted
+        if on && strict && u.length ≥ 2 && !(u.all fun e => got.any fun p => p.id == e.1 && p.payload == e.2.payload) then
+          acc := acc.fail "resend:younger-not-resent-behind-unacked-head"
+            s!"event {i-1} client {c}: {u.length} unacknowledged, re-sent only [{showPkts got}]"
     else if k == "sub" || k == "unsub" || k == "disc" then
       -- the routing state changes between messages: C14's model / abstract set, step by step
       let c := optStr ev "c"
